@@ -230,7 +230,9 @@ def _c05_stop_shared(sub, m):
 
 def _c04_shared(sub, m):
   from mlmverif.props import c04
-  for r in (c04.r1, c04.r4, c04.r5, c04.r6):
+  # R-C04-14: the full-buffer test and the wait on the enqueue condition are one critical section (no lost wake-up of the
+  # prefetch thread between `Full` and `wait()`)
+  for r in (c04.r1, c04.r4, c04.r5, c04.r6, c04.r14):
     sub.guard(r, m)
 
 
